@@ -32,6 +32,9 @@ def _nchw_job():
 
 
 def run(ctx: Ctx) -> None:
+    from harness.checks.c13 import unwind_discipline
+
+    unwind_discipline(ctx)          # the precision-flag managers restore the flag on every exit path
     rng = random.Random(ctx.seed)
     r = run_tlc("MC_Allclose", "MC_Allclose.cfg", timeout=1200, workers=8)
     tlc_must_pass(r, "J2O_Allclose")
